@@ -411,6 +411,17 @@ def impl_cli(c):
 # ---------------------------------------------------------------------------
 # reading the implementation's answer
 
+def same_cost(a, b):
+    """costs as numbers: the tool prints 4 where the object's cost is the float 4.0 (fractional unit costs)"""
+    if a == b:
+        return True
+    try:
+        x, y = float(a), float(b)
+    except (TypeError, ValueError):
+        return False
+    return x == y or abs(x - y) <= 1e-9 * max(1.0, abs(x), abs(y))
+
+
 def printed_cost(stderr):
     m = re.findall(r"^Minimum cost: (.*)$", stderr, flags=re.M)
     return m[-1].strip() if m else None
@@ -531,7 +542,7 @@ def oracle_cli(c, res):
                 if d["input"].get("leaf_object_species") != want:
                     return False, f"--solutions {pol}, line {j}: leaves were not mapped by the <species>_<id> convention"
             back_cost, drawn = r["back"][j]
-            if back_cost != cost:
+            if not same_cost(back_cost, cost):
                 return False, f"--solutions {pol}, line {j}: parsed-back cost {back_cost} but printed minimum cost {cost}"
             if drawn is not True:
                 return False, f"--solutions {pol}, line {j}: draw did not accept the object ({drawn})"
@@ -539,8 +550,9 @@ def oracle_cli(c, res):
         if len(set(objs)) != len(objs):
             return False, f"--solutions {pol} wrote the same solution twice"
         sets[pol] = set(objs)
-    if printed_cost(res["any"]["stderr"]) != printed_cost(res["all"]["stderr"]):
-        return False, "the two policies print different minimum costs"
+    if not same_cost(printed_cost(res["any"]["stderr"]), printed_cost(res["all"]["stderr"])):
+        return False, ("the two policies print different minimum costs, so --solutions all cannot contain the solution of --solutions any "
+                       f"(any: {printed_cost(res['any']['stderr'])}, all: {printed_cost(res['all']['stderr'])})")
     if "truncated_from" not in res["all"] and not sets["any"] <= sets["all"]:
         return False, "--solutions all does not contain the solution of --solutions any"
     return True, "every clause of the property holds on this run"
@@ -809,3 +821,38 @@ def batches(ctx):
                   "compared with the model: dispatch outcome over Gen/CliTable.v, names of both trees in pre-order, leaf mapping when left to the naming convention, "
                   "and 'all process-level clauses hold'"),
     )
+
+
+# ---------------------------------------------------------------------------
+# known finding F-COHERENCE seen through the command line: outside the coherent region a DP solver may
+# return a non-optimal solution, differently under the two policies, so `all` is not a superset of `any`
+
+DP_ALGOS = ("thl", "base_spfs", "ext_spfs", "base_uspfs", "superdtl")
+
+
+def _full_costs(c):
+    d = {"spe": 0, "dup": 1, "hgt": 1, "floss": 1, "sloss": 1}
+    d.update(c.get("costs") or {})
+    return d
+
+
+def known_signature(f, kf):
+    from .. import recon as R
+    if kf["id"] != "F-COHERENCE" or f.batch != "cli" or not isinstance(f.case, dict):
+        return False
+    algo = f.case.get("algo")
+    if algo not in DP_ALGOS:
+        return False
+    if R.coherent(_full_costs(f.case), plain=(algo == "thl")):
+        return False
+    return ("the two policies print different minimum costs" in (f.detail or "")
+            or "--solutions all does not contain" in (f.detail or ""))
+
+
+def replay_known(ctx, kf):
+    w = kf.get("witness_cli")
+    if kf["id"] != "F-COHERENCE" or w is None:
+        return False, "no command-line witness recorded"
+    res = impl_cli(w)
+    ok, why = oracle_cli(w, res)
+    return (ok is False), f"reconcile {w['algo']} with costs {_full_costs(w)}: {why}"
